@@ -354,6 +354,61 @@ func Corrupt(r *Rnd, obj *TV, n int) (*TV, []Corruption) {
 	return c, done
 }
 
+// CorruptTwin damages one attribute in two different ways in two elements of the same list or map of
+// objects (deleted in one, of a wrong type in the other): two problems that are reported under one path.
+func CorruptTwin(r *Rnd, obj *TV) (*TV, []Corruption) {
+	c := CloneTV(obj)
+	var hosts []*TV
+	var paths []string
+	var walk func(v *TV, path string)
+	walk = func(v *TV, path string) {
+		if v == nil || v.Null || v.Unknown || v.NilC {
+			return
+		}
+		switch v.K {
+		case "ov":
+			for i, k := range v.Keys {
+				walk(v.Elems[i], path+"/"+k)
+			}
+		case "lv", "mv":
+			n := 0
+			for _, e := range v.Elems {
+				if e != nil && e.K == "ov" && !e.Null && !e.Unknown && !e.NilC && len(e.Keys) > 0 {
+					n++
+				}
+				walk(e, path+"/*")
+			}
+			if n >= 2 {
+				hosts = append(hosts, v)
+				paths = append(paths, path)
+			}
+		}
+	}
+	walk(c, "")
+	if len(hosts) == 0 {
+		return nil, nil
+	}
+	h := r.N(len(hosts))
+	var els []*TV
+	for _, e := range hosts[h].Elems {
+		if e != nil && e.K == "ov" && !e.Null && !e.Unknown && !e.NilC && len(e.Keys) > 0 {
+			els = append(els, e)
+		}
+	}
+	a, b := els[0], els[1]
+	if r.P(1, 2) {
+		a, b = b, a
+	}
+	key := a.Keys[r.N(len(a.Keys))]
+	old, ok := b.Attr(key)
+	if !ok {
+		return nil, nil
+	}
+	a.DelAttr(key)
+	b.SetAttr(key, wrongTyped(r, old))
+	return c, []Corruption{{"delete", paths[h] + "/*/" + key}, {"wrongtype", paths[h] + "/*/" + key}}
+}
+
 func setPos(p position, v *TV) {
 	if p.index >= 0 {
 		p.parent.Elems[p.index] = v
